@@ -610,7 +610,8 @@ def install_shadows():
     import importlib
 
     for name in ("robotpy_ext.control.toggle", "robotpy_ext.control.button_debouncer", "robotpy_ext.misc.simple_watchdog",
-                 "robotpy_ext.misc.precise_delay", "robotpy_ext.misc.periodic_filter"):
+                 "robotpy_ext.misc.precise_delay", "robotpy_ext.misc.periodic_filter", "robotpy_ext.autonomous.stateful_autonomous",
+                 "robotpy_ext.autonomous.selector", "magicbot.state_machine", "magicbot.magicrobot"):
         try:
             m = importlib.import_module(name)
         except Exception:
